@@ -64,9 +64,16 @@ def world_fields():
 # construction
 
 
+class ModelRejected(ValueError):
+  """put_model refused the model (documented unsupported input): outside the accepted input space of every property."""
+
+
 def make_model(spec, batch_sizes=None):
   mjm = _models.load_mjm(spec)
-  m = mjw.put_model(mjm, batch_sizes=batch_sizes) if batch_sizes else mjw.put_model(mjm)
+  try:
+    m = mjw.put_model(mjm, batch_sizes=batch_sizes) if batch_sizes else mjw.put_model(mjm)
+  except (NotImplementedError, ValueError) as e:
+    raise ModelRejected(f"{type(e).__name__}: {e}") from e
   for k, v in (spec.get("mopt") or {}).items():  # options that exist only on the warp side
     if k == "broadphase":
       v = T.BroadphaseType(v)
